@@ -49,10 +49,13 @@ def _found_returns_guarded(fn, lb_calls):
         if s.is_call and s.r.get('op') == '==' and pol and any(names(x) for x in ([s.obj] if s.obj is not None else []) + s.args) and \
                 any(y.k == 'UnaryOperator' and y.op == '*' for y in s.walk()):
             return True
-        # !(key < *res)  /  !Less(key, *res)
-        if pol is False and any(y.k == 'UnaryOperator' and y.op == '*' and names(y) for y in s.walk()) and \
-                ((s.k == 'BinaryOperator' and s.op == '<') or (s.is_call and (s.r.get('op') == '<' or (s.callee or {}).get('n') in ('Less', 'operator()')))):
-            return True
+        # !(key < *res)  /  !Less(key, *res): lower_bound already guarantees !(*res < key), so the element found must be the RIGHT operand
+        if pol is False and ((s.k == 'BinaryOperator' and s.op == '<') or (s.is_call and (s.r.get('op') == '<' or (s.callee or {}).get('n') in ('Less', 'operator()')))):
+            ops = list(s.children) if s.k == 'BinaryOperator' else (([s.obj] if (s.obj is not None and s.r.get('op') == '<') else []) + list(s.args))
+            ops = [o for o in ops if o is not None]
+            deref = lambda o: any(y.k == 'UnaryOperator' and y.op == '*' and names(y) for y in o.walk())
+            if len(ops) >= 2 and deref(ops[-1]) and not deref(ops[-2]):
+                return True
         return False
     # candidate "found" expressions: the then-branch of `cond ? found : miss` or returns mentioning res
     for n in fn.all_nodes():
